@@ -123,4 +123,16 @@ theorem steps_removeDeletedPart_expected : steps_removeDeletedPart = (["tb.parts
 
 theorem steps_clearCache_expected : steps_clearCache = (["if !idx.isOpen { return nil }", "idx.logger.Info(\"ClearCache\", zap.String(\"path\", idx.path))", "idx.mu.Lock()", "defer idx.mu.Unlock()", "idx.tb.DebugFlush()", "if err := idx.cache.reset(); err != nil { return err }", "return nil"] : List String) := by rfl
 
+/-! ### the store side of the drops (engine/engine_ddl.go, engine/engine.go), as `OG.C13.Store` transcribes it -/
+
+theorem steps_engineDropRetentionPolicy_expected : steps_engineDropRetentionPolicy = (["rpName := db + \".\" + rp", "if err := e.startDrop(rpName, e.droppingRP); err != nil { return err }", "defer e.endDrop(rpName, e.droppingRP)", "atomic.AddInt64(&stat.EngineStat.DropRPCount, 1)", "start := time.Now()", "e.log.Info(\"start drop retention policy...\", zap.String(\"db\", db), zap.String(\"rp\", rp), zap.Uint32(\"pt\", ptId))", "defer func(st time.Time) { d := time.Since(st) atomic.AddInt64(&stat.EngineStat.DropRPDurations, d.Nanoseconds()) stat.UpdateEngineStatS() e.log.Info(\"drop retention policy done\", zap.String(\"db\", db), zap.String(\"rp\", rp), zap.Duration(\"duration\", d), zap.Uint32(\"pt\", ptId)) }(start)", "obsOpt, _ := e.metaClient.DatabaseOption(db)", "deleteDirFunc := func() error { dataPath := path.Join(e.dataPath, config.DataDirectory, db, strconv.Itoa(int(ptId)), rp) walPath := path.Join(e.walPath, config.WalDirectory, db, strconv.Itoa(int(ptId)), rp) lockPath := \"\" if err := deleteDataAndWalPath(dataPath, walPath, obsOpt, &lockPath); err != nil { atomic.AddInt64(&stat.EngineStat.DropRPErrs, 1) return err } return nil }", "if err := e.DbPTRef(db, ptId); err != nil { atomic.AddInt64(&stat.EngineStat.DropRPErrs, 1) return err }", "defer e.DbPTUnref(db, ptId)", "if err := e.deleteIndexes(db, ptId, rp, func(dbPTInfo *DBPTInfo, shardID uint64, sh Shard) error { if err := sh.Close(); err != nil { return err } dbPTInfo.mu.Lock() delete(dbPTInfo.shards, shardID) delete(dbPTInfo.newestRpShard, rp) dbPTInfo.mu.Unlock() return nil }); err != nil { atomic.AddInt64(&stat.EngineStat.DropRPErrs, 1) return err }", "colstore.MstManagerIns().DelAll(db, rp)", "return deleteDirFunc()"] : List String) := by rfl
+
+theorem steps_engineDropMeasurement_expected : steps_engineDropMeasurement = (["e.log.Info(\"start delete measurement...\", zap.String(\"db\", db), zap.String(\"name\", name))", "start := time.Now()", "atomic.AddInt64(&stat.EngineStat.DropMstCount, 1)", "defer func(tm time.Time) { d := time.Since(tm) atomic.AddInt64(&stat.EngineStat.DropMstDurations, d.Nanoseconds()) stat.UpdateEngineStatS() e.log.Info(\"delete measurement done\", zap.String(\"db\", db), zap.String(\"name\", name), zap.Duration(\"time used\", d)) }(start)", "mstName := db + \".\" + rp + \".\" + name", "if err := e.startDrop(mstName, e.droppingMst); err != nil { return err }", "defer e.endDrop(mstName, e.droppingMst)", "e.mu.RLock()", "pts, ok := e.DBPartitions[db]", "if !ok || len(pts) == 0 { e.mu.RUnlock() return nil }", "ptIds, err := e.refDBPTsNoLock(pts, db)", "if err != nil { atomic.AddInt64(&stat.EngineStat.DropRPErrs, 1) e.mu.RUnlock() return err }", "ident := colstore.NewMeasurementIdent(db, rp)", "ident.SetName(name)", "e.mu.RUnlock()", "defer e.unrefDBPTs(db, ptIds)", "colstore.MstManagerIns().Del(ident)", "for ptID, pt := range pts { pt.mu.RLock() for _, id := range shardIds { sh, ok := pt.shards[id] if !ok { continue } if err := sh.DropMeasurement(context.TODO(), name); err != nil { e.log.Error(\"drop measurement fail\", zap.Uint32(\"ptid\", ptID), zap.Uint64(\"shard\", id), zap.Error(err)) pt.mu.RUnlock() atomic.AddInt64(&stat.EngineStat.DropMstErrs, 1) return err } } pt.mu.RUnlock() }", "return nil"] : List String) := by rfl
+
+theorem steps_deleteDataAndWalPath_expected : steps_deleteDataAndWalPath = (["logger.GetLogger().Info(\"deleteDataAndWalPath\", zap.String(\"data\", dataPath), zap.String(\"wal\", walPath))", "if obsOpt != nil { if err := deleteDir(fileops.GetRemoteDataPath(obsOpt, dataPath), lockPath); err != nil && !os.IsNotExist(err) { return err } }", "if err := deleteDir(dataPath, lockPath); err != nil && !os.IsNotExist(err) { return err }", "if err := deleteDir(walPath, lockPath); err != nil && !os.IsNotExist(err) { return err }", "return nil"] : List String) := by rfl
+
+theorem steps_deleteShardsAndIndexes_expected : steps_deleteShardsAndIndexes = (["dbPTInfo.mu.Lock()", "defer dbPTInfo.mu.Unlock()", "for id, shard := range dbPTInfo.shards { if err := shard.Close(); err != nil { return err } delete(dbPTInfo.shards, id) }", "for id, iBuild := range dbPTInfo.indexBuilder { if err := iBuild.Close(); err != nil { return err } delete(dbPTInfo.indexBuilder, id) }", "var errs []error", "deleteRps := make([]string, 0, len(dbPTInfo.delIndexBuilderMap))", "for rp, iBuild := range dbPTInfo.delIndexBuilderMap { if err := iBuild.Close(); err != nil { e.log.Error(\"drop series failed\", zap.Uint32(\"ptId\", dbPTInfo.id), zap.String(\"rp\", rp), zap.Error(err)) errs = append(errs, err) } else { deleteRps = append(deleteRps, rp) } }", "for _, rp := range deleteRps { delete(dbPTInfo.delIndexBuilderMap, rp) }", "if len(errs) > 0 { return errors.Join(errs...) }", "return nil"] : List String) := by rfl
+
+theorem calls_engineDeleteDatabase_expected : calls_engineDeleteDatabase = (["e.log.Info", "e.log.Info", "e.startDrop", "e.endDrop", "e.metaClient.DatabaseOption", "e.mu.RLock", "e.mu.RUnlock", "deleteDataAndWalPath", "e.mu.RUnlock", "deleteDataAndWalPath", "dbPTInfo.markOffload", "dbPTInfo.unMarkOffload", "e.mu.RUnlock", "dbPTInfo.wg.Wait", "e.deleteShardsAndIndexes", "deleteDataAndWalPath", "dbPTInfo.unMarkOffload", "e.mu.RUnlock", "dbPTInfo.node.Stop", "e.mu.RUnlock", "e.mu.Lock", "e.dropDBPTInfo", "e.mu.Unlock", "colstore.MstManagerIns().DelAll", "colstore.MstManagerIns"] : List String) := by rfl
+
 end OG.C13.Facts
